@@ -951,8 +951,25 @@ func (ndb *nodeDB) getLatestVersion() (bool, int64, error) {
 		var nk []byte
 		nodeKeyFormat.Scan(k, &nk)
 		latestVersion = GetNodeKey(nk).version
-		ndb.resetLatestVersion(latestVersion)
-		return true, latestVersion, nil
+		if GetNodeKey(nk).nonce != 1 {
+			// The root of a version is written after all its other nodes and deleted before
+			// them: a version without a root entry is the remainder of an interrupted commit
+			// or rollback and is ignored.
+			for latestVersion > 0 {
+				has, err := ndb.hasVersion(latestVersion)
+				if err != nil {
+					return false, 0, err
+				}
+				if has {
+					break
+				}
+				latestVersion--
+			}
+		}
+		if latestVersion > 0 {
+			ndb.resetLatestVersion(latestVersion)
+			return true, latestVersion, nil
+		}
 	}
 
 	if err := itr.Error(); err != nil {
